@@ -20,7 +20,7 @@ BY_FILE = {
     'ops.rs': ['C01', 'C02', 'C03', 'C04', 'C05', 'C06', 'C07', 'C10', 'C19'],
     'next.rs': ['C05', 'C02', 'C19'], 'misc.rs': ['C01', 'C02', 'C19'], 'ctors.rs': ['C01', 'C06', 'C07', 'C19'],
     'clone.rs': ['C10', 'C05', 'C01', 'C02', 'C03', 'C04', 'C06'], 'lib.rs': ['C03', 'C02'], 'label.rs': ['C03', 'C17'],
-    'slice.rs': ['C13', 'C19'], 'merge.rs': ['C12', 'C11', 'C05'], 'xml.rs': ['C18'], 'dot.rs': ['C18'], 'hex.rs': ['C15', 'C16'], 'debug.rs': ['C20'], 'inspect.rs': ['C20'],
+    'slice.rs': ['C13', 'C19'], 'merge.rs': ['C12', 'C11', 'C05'], 'xml.rs': ['C18'], 'dot.rs': ['C18'], 'hex.rs': ['C15', 'C16', 'C18'], 'debug.rs': ['C20'], 'inspect.rs': ['C20'],
 }
 
 
